@@ -60,8 +60,9 @@ CLAIMED["C06"] = {
     "text": "Theorem fixedDepth_build: for EVERY cell sequence and EVERY buffer capacity the fixed-depth builder model (push with duplicate test, "
             "sorted flag, sort-on-drain, buff_to_moc, union with the previous MOC) returns normalize(union of the cells): order-, duplicate- and "
             "capacity-invariance are corollaries. Theorems kway{Or,And,Xor}_eq_fold: for every list length the lagged 4-by-4 KWay4 recursion equals the "
-            "left fold of the binary operator (associativity obtained from the unique normal form). The max-depth range builder is modelled and "
-            "checked by correspondence only (partial). A genuine defect of the push_v2 variant was found and repaired.",
+            "left fold of the binary operator (associativity obtained from the unique normal form). Theorems rangeBuilder_build / _sem / _perm and fromCells_sem: the max-depth RANGE builder (push with merge of "
+            "overlapping or touching last range, sorted flag, sort-on-drain, merge_sorted, lazy union with the previous MOC) returns normalize(degraded ranges) "
+            "for every sequence of non-empty ranges and every capacity. A genuine defect of the push_v2 variant was found and repaired.",
     "design_ref": "DESIGN.md §4 C06, §10",
     "note": TB,
     "technique": "Lean 4 proof (history invariant over pushes; generic associativity argument) + differential correspondence",
@@ -79,8 +80,8 @@ CLAIMED["C05"] = {
 CLAIMED["C18"] = {
     "text": "Theorems over ALL bit patterns, with the exponent window and the two biases extracted from src/qty.rs at every run: freq2hash is strictly increasing on "
             "the accepted interval, lands inside [0, n_cells_max), rejects everything outside (never wraps), hash2freq∘freq2hash = id bit-for-bit (64-bit), weak "
-            "monotonicity on u16/u32; an F-MOC / T-MOC built from values contains exactly the depth-d cells of those values for every order, capacity and width "
-            "(corollary of the C06 builder theorem); widening round trip; hash2freq is the same affine map read backwards and the hertz range of the depth-d cell of an accepted value "
+            "monotonicity on u16/u32; an F-MOC / T-MOC built from values OR from half-open ranges contains exactly the depth-d cells of those values for every order, capacity and width "
+            "(corollaries of the C06 builder theorems; two genuine defects of the range builders on u16/u32 found and repaired); widening round trip; hash2freq is the same affine map read backwards and the hertz range of the depth-d cell of an accepted value "
             "ENCLOSES the value (hz_range_encloses). Correspondence on every binary exponent and the special values, exchanged as bit patterns.",
     "design_ref": "DESIGN.md §4 C18, §10",
     "note": TB + "; IEEE-754 order-embedding of non-negative doubles into their bit patterns",
